@@ -116,6 +116,38 @@ func checkC08(e *core.Env) {
 	})
 
 	// HTTP: extra request messages on single-request methods
+	// the caller's context ends after the single response has arrived, while the handler is still at work and
+	// then fails or produces a second response: success is not among the possible results
+	e.Cases("context-ends-before-status", e.N(40, 400), func(i int, r *rand.Rand) {
+		var c *Carrier
+		for _, x := range cs.list {
+			if (i%2 == 0) == x.Inproc && (x.Name == "inproc" || x.Name == "http-server") {
+				c = x
+			}
+		}
+		if c == nil {
+			return
+		}
+		sc := genCancelScript(r, ClientStream, c.HTTP, "ignore", 1<<20)
+		variant := pick(r, "error", "second-response")
+		if variant == "error" {
+			sc.Ret = Ret{How: "status", Code: uint32(codes.DataLoss), Msg: "failed after responding"}
+		} else {
+			sc.Ret = Ret{}
+			sc.Handler = append(sc.Handler, Op{Op: "send", Msg: &tpb.Message{Payload: []byte("one response too many")}})
+		}
+		res := runPlaced(c, sc, pick(r, "cancel", "deadline"), placement{"gate", 0})
+		if !res.finished || !res.reached {
+			e.Inconclusive("C08 context-ends-before-status: placement not reached on %s", c.Name)
+			return
+		}
+		out := res.run.ClientOutcome()
+		e.Eval(fmt.Sprintf("context-ends-before-status|%s|%s|ok=%v", c.Name, variant, out.OK), true)
+		if _, ran := res.run.HandlerReturn(); ran && out.Seen && out.OK {
+			e.Violate(c.Name+"/responses/context-ended/"+variant+"/success", fmt.Sprintf("the single response had arrived, the caller's context ended, the handler then went on (%s): the client reported success with that response", variant), witness(res.run))
+		}
+	})
+
 	e.Cases("requests", e.N(300, 4000), func(i int, r *rand.Rand) {
 		c := []*Carrier{cs.list[1], cs.list[2], decServer, decMux}[i%4]
 		k := pick(r, 1, 2, 2, 3)
